@@ -8,6 +8,7 @@ from typing import Any, Dict, List, Optional, Tuple
 from asyncssh.connection import SSHClientConnection, connect
 from asyncssh.misc import (
     ConnectionLost,
+    DisconnectError,
     HostKeyNotVerifiable,
     KeyExchangeFailed,
     PermissionDenied,
@@ -256,6 +257,10 @@ class AsyncsshTransport(AsyncTransport):
             msg = "timed out opening connection to device"
             self.logger.critical(msg)
             raise ScrapliAuthenticationFailed(msg) from exc
+        except (OSError, DisconnectError) as exc:
+            msg = f"failed to open connection to device: {exc!r}"
+            self.logger.critical(msg)
+            raise ScrapliConnectionNotOpened(msg) from exc
 
         if not self.session:
             raise ScrapliConnectionNotOpened
@@ -267,9 +272,14 @@ class AsyncsshTransport(AsyncTransport):
             )
             self._verify_key_value()
 
-        self.stdin, self.stdout, _ = await self.session.open_session(
-            term_type="xterm", encoding=None
-        )
+        try:
+            self.stdin, self.stdout, _ = await self.session.open_session(
+                term_type="xterm", encoding=None
+            )
+        except (OSError, DisconnectError) as exc:
+            msg = f"failed to open session channel: {exc!r}"
+            self.logger.critical(msg)
+            raise ScrapliConnectionNotOpened(msg) from exc
 
         self._post_open_closing_log(closing=False)
 
@@ -295,6 +305,11 @@ class AsyncsshTransport(AsyncTransport):
         if not self.session:
             return False
 
+        if self.stdout is not None and self.stdout.at_eof():
+            # the session channel is closed (the device ended the session), even if the underlying
+            # connection happens to still be up
+            return False
+
         # this may need to be revisited in the future, but this seems to be a good check for
         # aliveness
         with suppress(AttributeError):
@@ -317,7 +332,7 @@ class AsyncsshTransport(AsyncTransport):
 
         try:
             buf: bytes = await self.stdout.read(65535)
-        except ConnectionLost as exc:
+        except (ConnectionLost, DisconnectError, OSError) as exc:
             msg = (
                 "encountered EOF reading from transport; typically means the device closed the "
                 "connection"
@@ -330,4 +345,10 @@ class AsyncsshTransport(AsyncTransport):
     def write(self, channel_input: bytes) -> None:
         if not self.stdin:
             raise ScrapliConnectionNotOpened
-        self.stdin.write(channel_input)
+        try:
+            self.stdin.write(channel_input)
+        except OSError as exc:
+            # asyncssh raises BrokenPipeError if the channel is no longer open for sending
+            raise ScrapliConnectionError(
+                f"encountered error writing to transport, connection lost: {exc!r}"
+            ) from exc
